@@ -1,3 +1,4 @@
+import DL.Gen.RuleStructs
 import DL.Model.Ws
 namespace DL.Props.C03Ws
 open DL.Txt (utf8Len bytes) 
@@ -180,5 +181,16 @@ theorem clean_prefix_only_shifts (p g : List Char) (rest : List (Bool × List Ch
 example : noIrregularWhitespace [(true, ['a', ' ', ' ', 'b', ' '])] = [⟨1, 5⟩, ⟨6, 9⟩] := by decide
 -- inside a token nothing is reported
 example : noIrregularWhitespace [(true, [' ']), (false, ['"', ' ', '"']), (true, ['　'])] = [⟨5, 8⟩] := by decide
+
+/-! ## the two regular expressions of no-irregular-whitespace, read off the source on every run
+
+M-WS re-implements `IRREGULAR_WHITESPACE` (maximal runs of 22 characters) and `IRREGULAR_LINE_TERMINATORS` by hand.  The
+literals of the source (`Gen/RuleStructs.lean`, every `Regex::new(<literal>)`) are the ones modelled. -/
+theorem ws_regexes_as_modelled :
+    DL.Gen.regexLiterals.filter (fun r => r.1 == "src/rules/no_irregular_whitespace.rs") =
+      [("src/rules/no_irregular_whitespace.rs", "IRREGULAR_WHITESPACE",
+         "[\\f\\v\\u0085\\ufeff\\u00a0\\u1680\\u180e\\u2000\\u2001\\u2002\\u2003\\u2004\\u2005\\u2006\\u2007\\u2008\\u2009\\u200a\\u200b\\u202f\\u205f\\u3000]+"),
+       ("src/rules/no_irregular_whitespace.rs", "IRREGULAR_LINE_TERMINATORS", "[\\u2028\\u2029]")] := by
+  decide +kernel
 
 end DL.Props.C03Ws
